@@ -67,7 +67,7 @@ def entries(rng, cls: str, m: int, n: int) -> np.ndarray:
     return refq.qa(c)
 
 
-LAYOUTS = ["C", "F", "strided", "transposed_view", "readonly"]
+LAYOUTS = ["C", "F", "strided", "transposed_view", "readonly", "negative_strides"]
 
 
 def layout(A: np.ndarray, name: str) -> np.ndarray:
@@ -87,6 +87,9 @@ def layout(A: np.ndarray, name: str) -> np.ndarray:
         if A.ndim != 2:
             return A.copy()
         return np.ascontiguousarray(A.T).copy().T
+    if name == "negative_strides":
+        rev = tuple(slice(None, None, -1) for _ in A.shape)
+        return np.ascontiguousarray(A[rev]).copy()[rev]        # same values, every axis walked backwards in memory
     if name == "readonly":
         B = A.copy()
         B.setflags(write=False)
@@ -95,8 +98,8 @@ def layout(A: np.ndarray, name: str) -> np.ndarray:
 
 
 def vary(A: np.ndarray, idx: int) -> np.ndarray:
-    """Same values in a memory layout chosen by idx (most cases stay C-contiguous; every 7-cycle visits the other four layouts)."""
-    return layout(A, ["C", "C", "F", "C", "strided", "transposed_view", "readonly"][idx % 7])
+    """Same values in a memory layout chosen by idx (most cases stay C-contiguous; every 9-cycle visits the other five layouts)."""
+    return layout(A, ["C", "C", "F", "C", "strided", "transposed_view", "readonly", "C", "negative_strides"][idx % 9])
 
 
 def shapes3(maxdim: int):
